@@ -6,6 +6,8 @@ VARIABLE nev
 \* constant definitions for the cfg files (sequences cannot be written in a cfg)
 Fam3 == <<4, 6, 4>>
 Fam4 == <<4, 6, 0, 4>>
+\* prefix of the universe of the drivers (PickFirstTrace.Fam7), used for behaviour generation
+Fam4b == <<4, 6, 4, 0>>
 ListsA == << <<>>, <<1, 2, 3>>, <<3, 3, 1>>, <<2>> >>
 ListsB == << <<>>, <<1, 3, 2>>, <<2, 1>>, <<3>>, <<1, 1, 2>> >>
 ListsC == << <<>>, <<1, 4, 2, 3>>, <<3, 3, 1>>, <<2, 4>> >>
